@@ -32,7 +32,8 @@ OWN_CORPUS = [
     "$[?1==1]", "$[?'a'=='a']", "$[?null==null]", "$[?-1<0]", "$[?0.5<1]", "$.a[?@.b][?@.c]",
     "$..[?@.a]", "$[?count(@[?@.c, ?@.d]) > 0]", "$[?count(@[?@.c,1]) == 1]", "$[?value(@[?match(@.a,'b'), 0]) == 1, ?@.b]",
     "$[?count(@[?count(@[?@.a,1]) > 1, 2]) > 0]", "$[?@[?@.c, ?@.d]]", "$[?length(@['a','b'][0]) == 1]".replace("['a','b'][0]", "['a'][0]"),
-    "$[?count(@['a','b']) == 2]", "$[?count(@[0,1:2,*]) > 2 && match(@.a, 'x')]", "$[?@.a\n==\n1]", "$[?@.a==\t1]", "$\n.a", "$\r\n[\n0\n]",
+    "$[?count(@['a','b']) == 2]", "$[?match(@.a, @.b)]", "$[?search(@, $.p)]", "$[?match(@, @)]", "$[?search(@.s, @.p) || match($, @)]",
+    "$[?length(@.a, !@.b) == 1]".replace(", !@.b", ""), "$[?match(@.a, 'x') && !search(@.b, (@.c))]".replace("(@.c)", "@.c"), "$[?count(@[0,1:2,*]) > 2 && match(@.a, 'x')]", "$[?@.a\n==\n1]", "$[?@.a==\t1]", "$\n.a", "$\r\n[\n0\n]",
 ]
 
 
